@@ -1293,7 +1293,87 @@ impl<'a> Gen<'a> {
         SQuery { clauses, ret }
     }
 
+    /// `MATCH (a[:L])-[r1]-(h <rarest label and/or inline property of a real node>)-[r2]-(c[:L])` in
+    /// every combination of directions, returning both relationships: the cost-based planner
+    /// anchors on the middle node and expands both hops away from it (relationship isomorphism
+    /// must hold across the anchor).
+    fn gen_anchor_squery(&mut self) -> SQuery {
+        let g = self.g;
+        // the hub: a node with relationships, preferably many
+        let mut deg: Vec<(usize, usize)> = g
+            .nodes
+            .iter()
+            .enumerate()
+            .map(|(i, n)| (g.rels.iter().filter(|r| r.src == n.id || r.tgt == n.id).count(), i))
+            .filter(|(d, _)| *d > 0)
+            .collect();
+        deg.sort();
+        let hub = if deg.is_empty() {
+            &g.nodes[0]
+        } else if self.r.chance(1, 2) {
+            &g.nodes[deg[deg.len() - 1].1]
+        } else {
+            &g.nodes[deg[self.r.below(deg.len() as u64) as usize].1]
+        };
+        let count = |l: u32| g.nodes.iter().filter(|n| n.labels.contains(&l)).count();
+        // middle node: its rarest label and/or one of its scalar properties
+        let mut mid_labels = Vec::new();
+        if let Some(l) = hub.labels.iter().min_by_key(|l| count(**l)) {
+            if self.r.chance(2, 3) {
+                mid_labels.push(*l);
+            }
+        }
+        let scalars: Vec<&(u32, Val)> = hub.props.iter().filter(|(_, v)| !matches!(v, Val::List(_))).collect();
+        let mut mid_props = Vec::new();
+        if !scalars.is_empty() && (mid_labels.is_empty() || self.r.chance(1, 2)) {
+            let (k, v) = scalars[self.r.below(scalars.len() as u64) as usize].clone();
+            mid_props.push((k, self.lit(v)));
+            self.feat("inline_props");
+        }
+        // the ends: the commonest label (costlier to scan than the anchor), or none
+        let common = (0..4u32).max_by_key(|l| count(*l)).filter(|l| count(*l) > 0);
+        let end_labels = |me: &mut Self| match common {
+            Some(l) if me.r.chance(1, 2) => vec![l],
+            _ => Vec::new(),
+        };
+        let la = end_labels(self);
+        let lc = if self.r.chance(2, 3) { la.clone() } else { end_labels(self) };
+        let ty: Vec<u32> = if self.r.chance(1, 2) { vec![*self.r.pick(&[0u32, 0, 1, 2])] } else { Vec::new() };
+        let (d1, d2) = *self.r.pick(&[(0u8, 1u8), (1, 0), (0, 0), (1, 1), (2, 2), (2, 2), (2, 0), (0, 2), (1, 2)]);
+        if d1 == 2 || d2 == 2 {
+            self.feat("undirected");
+        }
+        let (a, r1, h, r2, c) = (self.fresh(), self.fresh(), self.fresh(), self.fresh(), self.fresh());
+        let path = Path {
+            start: NPat { var: Some(a), labels: la, props: Vec::new() },
+            segs: vec![
+                (
+                    RPat { var: Some(r1), types: ty.clone(), dir: d1, props: Vec::new(), len: None },
+                    NPat { var: Some(h), labels: mid_labels, props: mid_props },
+                ),
+                (
+                    RPat { var: Some(r2), types: ty, dir: d2, props: Vec::new(), len: None },
+                    NPat { var: Some(c), labels: lc, props: Vec::new() },
+                ),
+            ],
+        };
+        self.feat("two_hops");
+        let mut items = vec![(Item::Expr(Expr::Var(r1)), 100), (Item::Expr(Expr::Var(r2)), 101)];
+        if self.r.chance(1, 2) {
+            items.push((Item::Expr(Expr::Fn(Func::Id, vec![Expr::Var(a)])), 102));
+            items.push((Item::Expr(Expr::Fn(Func::Id, vec![Expr::Var(c)])), 103));
+        }
+        SQuery {
+            clauses: vec![Clause::Match { opt: false, pats: vec![path], wher: None }],
+            ret: Proj { distinct: false, items, order: Vec::new(), skip: None, limit: None },
+        }
+    }
+
     pub fn gen_query(&mut self) -> Query {
+        if self.level >= 1 && !self.g.rels.is_empty() && self.r.chance(1, 9) {
+            self.feat("interior_anchor");
+            return Query { parts: vec![self.gen_anchor_squery()], all: false };
+        }
         if self.level >= 2 && self.r.chance(1, 10) {
             self.feat("union");
             let ncols = self.r.range(1, 2) as usize;
@@ -1582,6 +1662,77 @@ pub fn cost_estimate(g: &Graph, q: &Query) -> f64 {
 /// Properties of the answer that can be read off the engine's rows without a reference evaluator:
 /// a node returned for a pattern variable carries all the labels the pattern lists; LIMIT k returns
 /// at most k rows; DISTINCT returns no duplicate row.
+/// Relationship isomorphism read off the engine's rows: within one row, no relationship id is bound
+/// twice by the relationship variables of one MATCH clause (checkable when the query returns them
+/// as plain variables). Returns the description and, when the duplicate falls in a recorded class,
+/// the class: a variable-length variable is involved, or the two variables sit in different
+/// comma-separated paths.
+pub fn rel_iso_predicate(q: &Query, obs: &Obs) -> Option<(String, Option<&'static str>)> {
+    let rows = match obs {
+        Obs::Ok(rows) => rows,
+        _ => return None,
+    };
+    if q.parts.len() != 1 {
+        return None;
+    }
+    let s = &q.parts[0];
+    if s.clauses.iter().any(|c| matches!(c, Clause::With(..))) {
+        return None;
+    }
+    let col_of = |v: u32| s.ret.items.iter().position(|(it, _)| matches!(it, Item::Expr(Expr::Var(x)) if *x == v));
+    for c in &s.clauses {
+        if let Clause::Match { pats, .. } = c {
+            // (column, variable, path index, variable length)
+            let mut vars: Vec<(usize, u32, usize, bool)> = Vec::new();
+            for (pi, p) in pats.iter().enumerate() {
+                for (r, _) in &p.segs {
+                    if let Some(v) = r.var {
+                        if let Some(col) = col_of(v) {
+                            vars.push((col, v, pi, r.len.is_some()));
+                        }
+                    }
+                }
+            }
+            if vars.is_empty() {
+                continue;
+            }
+            for row in rows {
+                let mut seen: Vec<(u64, u32, usize, bool)> = Vec::new();
+                for (col, v, pi, vl) in &vars {
+                    let ids: Vec<u64> = match row.get(*col) {
+                        Some(Val::Rel(i)) => vec![*i],
+                        Some(Val::List(l)) => l.iter().filter_map(|x| if let Val::Rel(i) = x { Some(*i) } else { None }).collect(),
+                        _ => Vec::new(),
+                    };
+                    for id in ids {
+                        if let Some((_, v0, p0, vl0)) = seen.iter().find(|(i, ..)| *i == id) {
+                            let class = if *vl || *vl0 {
+                                Some("varlen_reachability")
+                            } else if p0 != pi {
+                                Some("multi_path_rel_iso")
+                            } else {
+                                None
+                            };
+                            return Some((
+                                format!(
+                                    "relationship {} is bound to both {} and {} in one MATCH (row {:?})",
+                                    id,
+                                    var_name(*v0),
+                                    var_name(*v),
+                                    row.iter().map(human_val).collect::<Vec<_>>()
+                                ),
+                                class,
+                            ));
+                        }
+                        seen.push((id, *v, *pi, *vl));
+                    }
+                }
+            }
+        }
+    }
+    None
+}
+
 pub fn direct_predicates(g: &Graph, q: &Query, obs: &Obs) -> Option<String> {
     let rows = match obs {
         Obs::Ok(rows) => rows,
